@@ -579,15 +579,18 @@ func (c *Controller) onNodeEvent(_, node *v1.Node, event model.Event) error {
 				break
 			}
 		}
-		if k8sNode.address == "" {
-			return nil
-		}
-
 		c.Lock()
 		// check if the node exists as this add event could be due to controller resync
 		// if the stored object changes, then fire an update event. Otherwise, ignore this event.
 		currentNode, exists := c.nodeInfoMap[node.Name]
-		if !exists || !nodeEquals(currentNode, k8sNode) {
+		if k8sNode.address == "" {
+			// Only nodes with an ExternalIP are kept. A node that lost its ExternalIP must not stay
+			// behind with the old address.
+			if exists {
+				delete(c.nodeInfoMap, node.Name)
+				updatedNeeded = true
+			}
+		} else if !exists || !nodeEquals(currentNode, k8sNode) {
 			c.nodeInfoMap[node.Name] = k8sNode
 			updatedNeeded = true
 		}
